@@ -142,7 +142,7 @@ PROPS = {
         not_decided=["thread counts (N2)", "sizes beyond the bounds", "SIMD back-ends", "two-pass convolution into a cropped view (Form-M two-pass harnesses exceed the time box)"],
     ),
     "C07": dict(
-        units=["A1", "A3", "A6", "K7", "L1"],
+        units=["A1", "A3", "A6", "K7", "L1", "P"],
         level="model_checking",
         level_text="Complete facts: f(c,0)=0 and f(c,M)=c for multiply, a=0 -> 0 and a=M identity for divide (Verus, all pairs). Bounded glue: "
                    "sources differing only under alpha=0 premultiply to identical images (so everything downstream is identical), alpha is "
